@@ -737,6 +737,8 @@ class Stmts(Exec):
 
     def perm_of_set(self, st, t, S):
         """Arbitrary-order listing of a set: fresh list, duplicate free, same members."""
+        S0 = S; S = fresh_z(t, 'setv'); kk = z3.Const(fresh_name('k'), sort_of(t.elem))
+        st.assume(z3.ForAll([kk], z3.Select(S, kk) == z3.Select(S0, kk)))
         lt = ListT(t.elem); L = fresh_z(lt, 'setiter')
         i = z3.Int(fresh_name('i')); j = z3.Int(fresh_name('j')); k = z3.Const(fresh_name('k'), sort_of(t.elem))
         n = list_len(lt, L)
